@@ -949,11 +949,21 @@ func (j *job) run(c *rep.Collector, specs []spec) {
 						cls = "wrong-handler-or-count"
 					}
 					paramTypes := make([]string, len(s.Params))
+					var nilIface []int
 					for i, p := range s.Params {
 						paramTypes[i] = typeNames[p]
+						if typeRT[p].Kind() == reflect.Interface && vals[p][cs.tuple[i]] == nil {
+							nilIface = append(nilIface, i)
+						}
 					}
-					bad(cls, "expected handler %s to run exactly once, ran %v (caller got value=%s err=%q); param types %v",
-						s.Name, who, trunc(gotVal, 200), trunc(gotErrStr, 300), paramTypes)
+					note := ""
+					if len(ran) == 0 && len(nilIface) > 0 {
+						// sub-class only; the oracle is the same
+						cls = "handler-not-run/nil-interface-arg"
+						note = fmt.Sprintf("; nil interface-typed argument at position %v", nilIface)
+					}
+					bad(cls, "expected handler %s to run exactly once, ran %v (caller got value=%s err=%q); param types %v%s",
+						s.Name, who, trunc(gotVal, 200), trunc(gotErrStr, 300), paramTypes, note)
 					continue
 				}
 				// (2) arguments
